@@ -91,8 +91,8 @@ func StartHistory(rec *Recorder, reset Ev) *Chain {
 	}
 	c := NewChain(p, names, bal)
 	for i := range reset.RInit {
-		op := reset.RInit[i]
-		if !c.Apply(&op) || !op.OK {
+		op := &reset.RInit[i]
+		if !c.Apply(op) || !op.OK {
 			panic(fmt.Sprintf("initial operation %s failed: %s", op.Name, op.Err))
 		}
 		c.TakeCallbacks()
